@@ -40,9 +40,9 @@ K1_TRIAGED = {
     ('celv', 'np.any(_)'): "row-wise convergence loop: every update is masked by the row's own convergence mask",
     ('cel_iterv', 'np.any(np.fabs(_ - _) >= _ * 1e-08)'): 'batch-level convergence: all rows iterate until the slowest converged (extra iterations change converged rows at rounding level only)',
     ('el3v', 'np.any(_)'): 'skip-empty-work with local temporaries under the same mask',
-    ('cel', '_ < 10'): 'batch-size switch between the scalar loop and the vectorised routine (same algorithm)',
-    ('el3', '_ < 10'): 'batch-size switch between the scalar loop and the vectorised routine (same algorithm)',
-    ('cel_iter', '_ < 15'): 'batch-size switch; the scalar branch result is discarded (no return), so the vectorised routine always runs',
+    ('cel', 'len(_) < 10'): 'batch-size switch between the scalar loop and the vectorised routine (same algorithm)',
+    ('el3', 'len(_) < 10'): 'batch-size switch between the scalar loop and the vectorised routine (same algorithm)',
+    ('cel_iter', 'len(_) < 15'): 'batch-size switch; the scalar branch result is discarded (no return), so the vectorised routine always runs',
     ('current_vertices_field', 'all((_ == _[0] for _ in _))'): 'uniform/ragged vertex-count switch (layout only)',
     ('get_disconnected_faces_subsets', 'len(_) > 0'): 'connectivity sweep over the faces of ONE mesh, not over batch rows',
     ('get_disconnected_faces_subsets', 'len(_) > _'): 'connectivity sweep over the faces of ONE mesh, not over batch rows',
@@ -74,7 +74,29 @@ K2_TRIAGED = {
     ('el3_angle', 'np.sum(_)'): 'count used only for allocation',
 }
 from common import canon_text as _ct
-K1_TRIAGED = {(f, _ct(sh)): v for (f, sh), v in K1_TRIAGED.items()}
+
+
+def site_canon(text):
+    """polarity-insensitive form of a branch test (a *site* is the same site whichever branch comes first): leading `not` stripped,
+    a single comparison written with textually sorted operands and the operator family {<, >=} -> `<`, {<=, >} -> `<=`, {==, !=} -> `==`"""
+    try:
+        t = ast.parse(text, mode="eval").body
+    except SyntaxError:
+        return text
+    while isinstance(t, ast.UnaryOp) and isinstance(t.op, ast.Not):
+        t = t.operand
+    if isinstance(t, ast.Compare) and len(t.ops) == 1:
+        a, b, op = t.left, t.comparators[0], type(t.ops[0])
+        mirror = {ast.Lt: ast.Gt, ast.Gt: ast.Lt, ast.LtE: ast.GtE, ast.GtE: ast.LtE}
+        if ast.unparse(a) > ast.unparse(b) and (op in mirror or op in (ast.Eq, ast.NotEq)):
+            a, b, op = b, a, mirror.get(op, op)
+        fam = {ast.Lt: ast.Lt, ast.GtE: ast.Lt, ast.LtE: ast.LtE, ast.Gt: ast.LtE, ast.Eq: ast.Eq, ast.NotEq: ast.Eq,
+               ast.In: ast.In, ast.NotIn: ast.In, ast.Is: ast.Is, ast.IsNot: ast.Is}.get(op, op)
+        t = ast.Compare(left=a, ops=[fam()], comparators=[b])
+    return ast.unparse(t)
+
+
+K1_TRIAGED = {(f, site_canon(_ct(sh))): v for (f, sh), v in K1_TRIAGED.items()}
 K2_TRIAGED = {(f, _ct(sh)): v for (f, sh), v in K2_TRIAGED.items()}
 RED = {"sum", "mean", "cumsum", "cumprod", "sort", "argsort", "roll", "unique", "median", "max", "min", "amax", "amin", "diff", "flip", "prod",
        "std", "var", "argmax", "argmin", "ptp", "average", "nansum", "nanmax", "nanmin", "nanmean", "searchsorted", "partition", "percentile",
@@ -169,9 +191,47 @@ def skip_empty_work(node):
 RUN_GROUP_IFS = []
 
 
+def _moved(key, m, table, mod_of):
+    """a triaged construct that moved into another function of the same module (extract-helper) is the same site"""
+    if key in table:
+        return key
+    for (f, sh) in table:
+        if sh == key[1] and mod_of.get(f) == m.name:
+            return (f, sh)
+    return key
+
+
+def _expand_names(call, fn):
+    """the reduction call with its plain-name arguments replaced by their defining arithmetic expression when the name is assigned exactly
+    once in the function (`n = v - 1; np.cumsum(n)` is the site `np.cumsum(v - 1)`)"""
+    import copy as _copy
+    defs = {}
+    for a in ast.walk(fn):
+        if isinstance(a, (ast.Assign, ast.AugAssign, ast.AnnAssign, ast.For, ast.comprehension, ast.NamedExpr)):
+            tg = a.targets if isinstance(a, ast.Assign) else [a.target]
+            for t in tg:
+                for x in ast.walk(t):
+                    if isinstance(x, ast.Name):
+                        defs.setdefault(x.id, []).append(a)
+    def small(v):
+        return (isinstance(v, ast.BinOp) and all(isinstance(o, (ast.Name, ast.Constant)) for o in (v.left, v.right))) or \
+               (isinstance(v, ast.Call) and isinstance(v.func, ast.Name) and v.func.id == "len" and len(v.args) == 1 and isinstance(v.args[0], ast.Name))
+
+    class Sub(ast.NodeTransformer):
+        def visit_Name(self, x):
+            d = defs.get(x.id, [])
+            if isinstance(x.ctx, ast.Load) and len(d) == 1 and isinstance(d[0], ast.Assign) and len(d[0].targets) == 1 and isinstance(d[0].targets[0], ast.Name) \
+                    and small(d[0].value) and x.id not in params:
+                return _copy.deepcopy(d[0].value)
+            return x
+    params = {a.arg for a in fn.args.posonlyargs + fn.args.args + fn.args.kwonlyargs}
+    return Sub().visit(_copy.deepcopy(call))
+
+
 def k1_k2(repo, res):
     n_fn = n1 = n2 = 0
     seen1, seen2 = set(), set()
+    mod_of = {fname: m.name for m, fname, fn in field_functions(repo)}
     for m, fname, fn in field_functions(repo):
         n_fn += 1
         lens = len_names(fn)
@@ -183,7 +243,8 @@ def k1_k2(repo, res):
                 t_ = n.test
                 while isinstance(t_, ast.UnaryOp) and isinstance(t_.op, ast.Not) and isinstance(n, ast.If) and n.orelse:
                     t_ = t_.operand          # `if not c: B else: A` is the site `if c: A else: B`
-                key = (fname, shape(t_))
+                key = (fname, site_canon(shape(_expand_names(t_, fn))))
+                key = _moved(key, m, K1_TRIAGED, mod_of)
                 n1 += 1
                 auto = skip_empty_work(n)
                 ok = auto or key in K1_TRIAGED
@@ -199,7 +260,7 @@ def k1_k2(repo, res):
                                                             and n.func.value.id == "np" and n.func.attr in ("sum", "mean", "max", "min", "cumsum", "sort") else None)
                 if axv not in (None, "0", "None"):
                     continue
-                key = (fname, shape(n))
+                key = _moved((fname, shape(_expand_names(n, fn))), m, K2_TRIAGED, mod_of)
                 n2 += 1
                 ok = key in K2_TRIAGED
                 seen2.add(key)
